@@ -48,7 +48,7 @@ func init() {
 	register("C01", func(e *Env) {
 		renderPrelude()
 		e.perShard = 60
-		e.rep.Rule = "a payload string (full byte alphabet incl. < > & ' \", pre-formed entities, multi-byte runes, invalid UTF-8) bound as a Go string, as a struct field, map value and slice element, and the same payload as template.HTML / raw(): moved through compositions (depth 1..3) of the plumbing routes let, assignment, array, hash, nested index, Go helper, user function (result and emitted argument), for (value and keyed), if/else, block helper with own context, contentFor/contentOf (+data, +default block), partial (+layout); oracle: between two markers the output must be exactly html-escape(payload) for strings and exactly the payload, once, for trusted HTML; distinct by (payload, route composition, kind)"
+		e.rep.Rule = "a payload string (full byte alphabet incl. < > & ' \", pre-formed entities, multi-byte runes, invalid UTF-8) bound as a Go string, as a struct field, map value and slice element, and the same payload as template.HTML / raw(): moved through compositions (depth 1..3) of the plumbing routes let, assignment, array, hash, nested index, Go helper, user function (result and emitted argument), for (value and keyed), if/else, block helper with own context, contentFor/contentOf (+data, +default block), partial (+layout); helpers with template.HTML-typed parameters fed plain strings (must be rejected or stay escaped); oracle: between two markers the output must be exactly html-escape(payload) for strings and exactly the payload, once, for trusted HTML; distinct by (payload, route composition, kind)"
 		payloads := []string{`<b>&'"x`, `a&amp;b`, `</script><script>`, `'"`, `plain`, "é世<😀>", "\xff<\x80>", `&#34;&lt;`, "<", ">", "&", " "}
 		parts := map[string]string{"echo": `<%= who %>`, "lay": `(<%= yield %>)`}
 		sources := []struct {
@@ -137,6 +137,31 @@ func init() {
 				}
 			}
 			run(payloads[e.Rng.Intn(len(payloads))], e.Rng.Intn(len(sources)), rs)
+		}
+		// type laundering: a helper parameter typed template.HTML must not accept a plain string
+		// (binding it would turn untrusted text into trusted HTML); a rejected call is correct,
+		// otherwise the payload must still come out escaped.  Trusted HTML passes verbatim, once.
+		for _, p := range payloads {
+			binds := []Bind{{"p", vStr(p)}, {"hp", vHTML(p)}, {"o", vT1(p)}, {"ss", vSlice("string", vStr(p))}, {"boldh", vGo(109)}, {"joinh", vGo(110)}}
+			for _, t := range []string{"[[<%= boldh(p) %>]]", "<% let q = p %>[[<%= boldh(q) %>]]", "[[<%= boldh(\"\" + p) %>]]", "[[<%= for (v) in ss { %><%= boldh(v) %><% } %>]]",
+				"[[<%= boldh(o.Name) %>]]", "<% let g = fn(a) { return boldh(a) } %>[[<%= g(p) %>]]", "[[<%= joinh(\"\", p) %>]]", "[[<%= joinh(\"\", hp, p) %>]]"} {
+				c := RCase{Tmpl: t, Binds: binds}
+				o := runRender(c)
+				e.rep.Evaluations++
+				e.Count("typed-html-param")
+				if o.Class == "PANIC" {
+					e.Violate("eval-panic@"+siteOf(o.Msg), fmt.Sprintf("Render panicked on %q: %s", t, o.Msg), map[string]interface{}{"case": c, "observed": o})
+				}
+				if o.Class == "OK" && p != template.HTMLEscapeString(p) && strings.Contains(o.Out, p) {
+					e.Violate("c01-escape", fmt.Sprintf("%s: the plain string %q was bound to a template.HTML parameter and came out raw: %q", t, p, o.Out), map[string]interface{}{"case": c, "observed": o})
+				}
+			}
+			c := RCase{Tmpl: "[[<%= boldh(hp) %>]]|[[<%= boldh(raw(p)) %>]]|[[<%= joinh(\"-\", hp, hp) %>]]", Binds: binds}
+			o := runRender(c)
+			e.rep.Evaluations++
+			if want := "[[<b>" + p + "</b>]]|[[<b>" + p + "</b>]]|[[" + p + "-" + p + "]]"; o.Class != "OK" || o.Out != want {
+				e.Violate("c01-escape", fmt.Sprintf("%s rendered %q (%s %s), want %q", c.Tmpl, o.Out, o.Class, o.Msg, want), map[string]interface{}{"case": c, "observed": o})
+			}
 		}
 		// htmlEscape returns a plain string: escaped again by the sink (documented reading)
 		for _, p := range payloads[:4] {
